@@ -49,7 +49,33 @@ fn fstmts() -> Vec<Stmt> {
         Stmt::Emit(Expr::StructLit("Eff2", vec![("a", Expr::Int(3))], vec![])),
         Stmt::CallStmt("ff".into(), vec![this("y")]),
         Stmt::CallStmt("ff2".into(), vec![this("x")]),
+        // a statement the compiler accepts in every context, finish included
+        Stmt::DebugAssert(this("b")),
     ]
+}
+
+/// Statement context of a generated block.
+#[derive(Clone, Copy, PartialEq, Eq, PartialOrd, Ord)]
+pub enum Ctx {
+    Policy,
+    /// inside a recall block: `recall` is not available, `check` can only diverge with todo()
+    Recall,
+}
+
+fn simple_stmts_in(ctx: Ctx) -> Vec<Stmt> {
+    let mut n = 0u32;
+    let all = simple_stmts(&mut n);
+    match ctx {
+        Ctx::Policy => all,
+        Ctx::Recall => all
+            .into_iter()
+            .filter(|s| match s {
+                Stmt::Recall(..) => false,
+                Stmt::Check(_, e) => !matches!(e, Expr::RecallE(..)),
+                _ => true,
+            })
+            .collect(),
+    }
 }
 
 fn simple_stmts(names: &mut u32) -> Vec<Stmt> {
@@ -68,6 +94,11 @@ fn simple_stmts(names: &mut u32) -> Vec<Stmt> {
         // statement form of recall
         Stmt::Recall("r1".into(), vec![this("x")]),
     ]
+}
+
+/// The statements that are valid only inside finish (debug_assert is valid everywhere).
+fn finish_only_stmts() -> Vec<Stmt> {
+    fstmts().into_iter().filter(|s| !matches!(s, Stmt::DebugAssert(_))).collect()
 }
 
 fn conds() -> Vec<Expr> {
@@ -92,11 +123,13 @@ fn flists(n: usize) -> Vec<Vec<Stmt>> {
 }
 
 /// All policy blocks of total size exactly `n`. `finish` may only end a block.
-fn blocks(n: usize, depth: u32, memo: &mut BTreeMap<(usize, u32), Vec<Vec<Stmt>>>) -> Vec<Vec<Stmt>> {
+type Memo = BTreeMap<(usize, u32, Ctx), Vec<Vec<Stmt>>>;
+
+fn blocks(n: usize, depth: u32, ctx: Ctx, memo: &mut Memo) -> Vec<Vec<Stmt>> {
     if n == 0 {
         return vec![vec![]];
     }
-    if let Some(v) = memo.get(&(n, depth)) {
+    if let Some(v) = memo.get(&(n, depth, ctx)) {
         return v.clone();
     }
     let mut out: Vec<Vec<Stmt>> = Vec::new();
@@ -105,9 +138,8 @@ fn blocks(n: usize, depth: u32, memo: &mut BTreeMap<(usize, u32), Vec<Vec<Stmt>>
         out.push(vec![Stmt::Finish(fl)]);
     }
     // first statement simple
-    let mut names = 0u32;
-    let simples = simple_stmts(&mut names);
-    for rest in blocks(n - 1, depth, memo) {
+    let simples = simple_stmts_in(ctx);
+    for rest in blocks(n - 1, depth, ctx, memo) {
         for s in &simples {
             if matches!(s, Stmt::Recall(..)) && !rest.is_empty() {
                 continue; // code after an unconditional recall is dead; keep it as a last statement only
@@ -122,9 +154,9 @@ fn blocks(n: usize, depth: u32, memo: &mut BTreeMap<(usize, u32), Vec<Vec<Stmt>>
         for inner in 0..n {
             // sizes: 1 (the compound) + inner + rest
             let rest_size = n - 1 - inner;
-            let rests = blocks(rest_size, depth, memo);
+            let rests = blocks(rest_size, depth, ctx, memo);
             // if c { B }
-            for b1 in blocks(inner, depth - 1, memo) {
+            for b1 in blocks(inner, depth - 1, ctx, memo) {
                 for c in conds() {
                     for rest in &rests {
                         let mut b = vec![Stmt::If(vec![(c.clone(), b1.clone())], None)];
@@ -135,8 +167,8 @@ fn blocks(n: usize, depth: u32, memo: &mut BTreeMap<(usize, u32), Vec<Vec<Stmt>>
             }
             // if c { B1 } else { B2 }  and  match this.x { 0 => { B1 } _ => { B2 } }
             for i1 in 0..=inner {
-                let b1s = blocks(i1, depth - 1, memo);
-                let b2s = blocks(inner - i1, depth - 1, memo);
+                let b1s = blocks(i1, depth - 1, ctx, memo);
+                let b2s = blocks(inner - i1, depth - 1, ctx, memo);
                 for b1 in &b1s {
                     for b2 in &b2s {
                         for rest in &rests {
@@ -158,7 +190,7 @@ fn blocks(n: usize, depth: u32, memo: &mut BTreeMap<(usize, u32), Vec<Vec<Stmt>>
             }
         }
     }
-    memo.insert((n, depth), out.clone());
+    memo.insert((n, depth, ctx), out.clone());
     out
 }
 
@@ -254,12 +286,56 @@ fn recall_text() -> String {
 }
 
 fn command_text(name: &str, policy: &[Stmt]) -> String {
+    command_text_rg(name, policy, None)
+}
+
+fn command_text_rg(name: &str, policy: &[Stmt], rg: Option<&Vec<Stmt>>) -> String {
     let mut s = format!("command {name} {{ fields {{ x int, y int, b bool }} seal {{ return todo() }} open {{ return todo() }} policy {{");
     print_stmts(&mut s, policy);
     s.push_str(" }");
     s.push_str(&recall_text());
+    if let Some(body) = rg {
+        s.push_str(" recall rg() {");
+        print_stmts(&mut s, body);
+        s.push_str(" }");
+    }
     s.push_str(" }\n");
     s
+}
+
+/// The policy every generated recall block `rg` is exercised through: recalled when `this.b` is
+/// false, otherwise the command is accepted with an effect.
+fn rg_policy() -> Vec<Stmt> {
+    vec![
+        Stmt::Check(this("b"), Expr::RecallE("rg".into(), vec![])),
+        Stmt::Finish(vec![Stmt::Emit(Expr::StructLit("Eff2", vec![("a", Expr::Int(3))], vec![]))]),
+    ]
+}
+
+/// A program of the space: a policy body, optionally with a generated recall block `rg`.
+#[derive(Clone, Copy)]
+pub struct Prog<'a> {
+    pub policy: &'a Vec<Stmt>,
+    pub rg: Option<&'a Vec<Stmt>>,
+}
+
+pub fn prog_key(p: &Prog<'_>) -> String {
+    let mut s = policy_key(p.policy);
+    if let Some(body) = p.rg {
+        s.push_str(" recall rg() {");
+        print_stmts(&mut s, body);
+        s.push_str(" }");
+    }
+    s
+}
+
+fn has_debug_assert_in_finish(stmts: &[Stmt]) -> bool {
+    stmts.iter().any(|s| match s {
+        Stmt::Finish(f) => f.iter().any(|x| matches!(x, Stmt::DebugAssert(_))),
+        Stmt::If(bs, fb) => bs.iter().any(|(_, b)| has_debug_assert_in_finish(b)) || fb.as_ref().is_some_and(|b| has_debug_assert_in_finish(b)),
+        Stmt::Match(_, arms) => arms.iter().any(|(_, b)| has_debug_assert_in_finish(b)),
+        _ => false,
+    })
 }
 
 fn callables() -> BTreeMap<String, Callable> {
@@ -374,28 +450,43 @@ pub fn policy_key(policy: &[Stmt]) -> String {
 }
 
 fn run_batch(rep: &mut Report, policies: &[&Vec<Stmt>], base: usize, goes_wrong_only: bool) {
-    let text = doc_text(policies, base);
+    let progs: Vec<Prog<'_>> = policies.iter().map(|p| Prog { policy: p, rg: None }).collect();
+    run_progs(rep, &progs, base, goes_wrong_only)
+}
+
+fn run_progs(rep: &mut Report, progs: &[Prog<'_>], base: usize, goes_wrong_only: bool) {
+    let mut text = String::from(SHARED);
+    for (i, p) in progs.iter().enumerate() {
+        text.push_str(&command_text_rg(&format!("C{}", base + i), p.policy, p.rg));
+    }
     let machine = match vmrun::compile_text(&text, Ffi::None) {
         Ok(m) => Machine::from_module(m).unwrap_or_else(|_| mcx::machinery_error("module version")),
         Err(e) => {
-            if policies.len() == 1 {
+            if progs.len() == 1 {
                 rep.count("rejected_by_front_end", 1);
-                rep.sample(json!({"rejected_by_front_end": policy_key(policies[0]), "message": e}));
+                rep.sample(json!({"rejected_by_front_end": prog_key(&progs[0]), "message": e}));
                 if std::env::var_os("POL_DEBUG").is_some() {
-                    eprintln!("REJECTED {e} :: {}", policy_key(policies[0]));
+                    eprintln!("REJECTED {e} :: {}", prog_key(&progs[0]));
                 }
                 return;
             }
-            let mid = policies.len() / 2;
-            run_batch(rep, &policies[..mid], base, goes_wrong_only);
-            run_batch(rep, &policies[mid..], base + mid, goes_wrong_only);
+            let mid = progs.len() / 2;
+            run_progs(rep, &progs[..mid], base, goes_wrong_only);
+            run_progs(rep, &progs[mid..], base + mid, goes_wrong_only);
             return;
         }
     };
     let fns = callables();
     let globals = BTreeMap::new();
-    let recalls = recall_defs();
-    for (i, p) in policies.iter().enumerate() {
+    let base_recalls = recall_defs();
+    for (i, prog) in progs.iter().enumerate() {
+        let p = prog.policy;
+        let mut recalls = base_recalls.clone();
+        if let Some(body) = prog.rg {
+            recalls.insert("rg".to_string(), (vec![], body.clone()));
+            rep.count("programs_with_generated_recall_block", 1);
+        }
+        let dbg_in_finish = has_debug_assert_in_finish(p) || prog.rg.is_some_and(|b| has_debug_assert_in_finish(b));
         rep.count("programs", 1);
         let name = format!("C{}", base + i);
         for (x, y, b) in inputs() {
@@ -406,8 +497,8 @@ fn run_batch(rep: &mut Report, policies: &[&Vec<Stmt>], base: usize, goes_wrong_
             let mut steps = 0u64;
             let out = vmrun::run_command(&machine, &mut io, this_vm, &mut steps);
             rep.count("transitions", steps);
-            let key = || policy_key(p);
-            let replay = || json!({"policy": policy_key(p), "x": x, "y": y, "b": b});
+            let key = || prog_key(prog);
+            let replay = || json!({"policy": prog_key(prog), "x": x, "y": y, "b": b});
             if goes_wrong_only {
                 rep.count("disagreements_checked", 1);
                 match &out {
@@ -434,7 +525,14 @@ fn run_batch(rep: &mut Report, policies: &[&Vec<Stmt>], base: usize, goes_wrong_
                 Outcome::Panic => {
                     rep.count("runs_panic", 1);
                     if n_io != 0 {
-                        rep.violation(key(), format!("x={x} y={y} b={b}: run ended in Panic after {n_io} fact/effect calls: {:?}", io.log), replay());
+                        // one root cause, one key: a failing debug_assert after writes inside finish
+                        let k = if dbg_in_finish && matches!(stop, Stop::Panic) {
+                            "debug_assert inside a finish block can panic after facts were written and effects emitted".to_string()
+                        } else {
+                            key()
+                        };
+                        rep.count("runs_panic_after_io", 1);
+                        rep.violation(k, format!("x={x} y={y} b={b}: run ended in Panic after {n_io} fact/effect calls: {:?}\nprogram: {}", io.log, prog_key(prog)), replay());
                         continue;
                     }
                 }
@@ -482,7 +580,7 @@ fn run_batch(rep: &mut Report, policies: &[&Vec<Stmt>], base: usize, goes_wrong_
                 (Stop::IoError(_), Outcome::Error(kind, _)) => kind == "IO" || kind == "InvalidFact",
                 (Stop::Unmodelled(why), _) => {
                     rep.count("unmodelled", 1);
-                    rep.sample(json!({"unmodelled": why, "policy": policy_key(p)}));
+                    rep.sample(json!({"unmodelled": why, "policy": prog_key(prog)}));
                     true
                 }
                 _ => false,
@@ -519,7 +617,7 @@ fn run_batch(rep: &mut Report, policies: &[&Vec<Stmt>], base: usize, goes_wrong_
 fn misplaced_variants(policy: &[Stmt]) -> Vec<(String, String)> {
     // returns (description, full document text)
     let mut out = Vec::new();
-    for f in fstmts() {
+    for f in finish_only_stmts() {
         let mut ftxt = String::new();
         print_stmt(&mut ftxt, &f);
         // positions inside the policy body: before every top-level statement, and at the start of
@@ -575,7 +673,7 @@ fn misplaced_variants(policy: &[Stmt]) -> Vec<(String, String)> {
 /// Context variants independent of the policy: recall block, pure function, action, seal/open.
 fn misplaced_in_other_contexts() -> Vec<(String, String)> {
     let mut out = Vec::new();
-    for f in fstmts() {
+    for f in finish_only_stmts() {
         let mut ftxt = String::new();
         print_stmt(&mut ftxt, &f);
         // `this` is not in scope in functions/actions: use literals there
@@ -613,7 +711,7 @@ fn misplaced_in_other_contexts() -> Vec<(String, String)> {
 
 /// Stream every policy body of total size exactly `n` (nesting ≤ 2) to `sink` without
 /// materialising the top level; nested blocks and tails (all of size < n) come from `memo`.
-fn for_each_block(n: usize, memo: &mut BTreeMap<(usize, u32), Vec<Vec<Stmt>>>, sink: &mut dyn FnMut(Vec<Stmt>)) {
+fn for_each_block(n: usize, ctx: Ctx, memo: &mut Memo, sink: &mut dyn FnMut(Vec<Stmt>)) {
     let depth = 2u32;
     if n == 0 {
         return;
@@ -621,9 +719,8 @@ fn for_each_block(n: usize, memo: &mut BTreeMap<(usize, u32), Vec<Vec<Stmt>>>, s
     for fl in flists(n - 1) {
         sink(vec![Stmt::Finish(fl)]);
     }
-    let mut names = 0u32;
-    let simples = simple_stmts(&mut names);
-    for rest in blocks(n - 1, depth, memo) {
+    let simples = simple_stmts_in(ctx);
+    for rest in blocks(n - 1, depth, ctx, memo) {
         for s in &simples {
             if matches!(s, Stmt::Recall(..)) && !rest.is_empty() {
                 continue;
@@ -634,8 +731,8 @@ fn for_each_block(n: usize, memo: &mut BTreeMap<(usize, u32), Vec<Vec<Stmt>>>, s
         }
     }
     for inner in 0..n {
-        let rests = blocks(n - 1 - inner, depth, memo);
-        for b1 in blocks(inner, depth - 1, memo) {
+        let rests = blocks(n - 1 - inner, depth, ctx, memo);
+        for b1 in blocks(inner, depth - 1, ctx, memo) {
             for c in conds() {
                 for rest in &rests {
                     let mut b = vec![Stmt::If(vec![(c.clone(), b1.clone())], None)];
@@ -645,8 +742,8 @@ fn for_each_block(n: usize, memo: &mut BTreeMap<(usize, u32), Vec<Vec<Stmt>>>, s
             }
         }
         for i1 in 0..=inner {
-            let b1s = blocks(i1, depth - 1, memo);
-            let b2s = blocks(inner - i1, depth - 1, memo);
+            let b1s = blocks(i1, depth - 1, ctx, memo);
+            let b2s = blocks(inner - i1, depth - 1, ctx, memo);
             for b1 in &b1s {
                 for b2 in &b2s {
                     for rest in &rests {
@@ -668,9 +765,14 @@ fn for_each_block(n: usize, memo: &mut BTreeMap<(usize, u32), Vec<Vec<Stmt>>>, s
 
 /// Every policy of size 1..=max, streamed (same order and content as `blocks(n, 2)`).
 pub fn for_each_policy(max: usize, sink: &mut dyn FnMut(Vec<Stmt>)) {
-    let mut memo = BTreeMap::new();
+    for_each_body(max, Ctx::Policy, sink)
+}
+
+/// Every block of size 1..=max in the given statement context.
+pub fn for_each_body(max: usize, ctx: Ctx, sink: &mut dyn FnMut(Vec<Stmt>)) {
+    let mut memo = Memo::new();
     for n in 1..=max {
-        for_each_block(n, &mut memo, &mut |mut b| {
+        for_each_block(n, ctx, &mut memo, &mut |mut b| {
             let mut k = 0;
             uniquify(&mut b, &mut k);
             sink(b);
@@ -693,6 +795,25 @@ pub fn run_policies(rep: &mut Report, all: &[Vec<Stmt>], goes_wrong_only: bool) 
         .map(|(base, chunk)| {
             let mut w = rep.worker();
             run_batch(&mut w, chunk, *base, goes_wrong_only);
+            w
+        })
+        .collect();
+    for w in workers {
+        rep.absorb(w);
+    }
+}
+
+/// Generated recall blocks, each run through `rg_policy()`.
+pub fn run_recall_bodies(rep: &mut Report, bodies: &[Vec<Stmt>]) {
+    let policy = rg_policy();
+    const B: usize = 100;
+    let chunks: Vec<(usize, &[Vec<Stmt>])> = bodies.chunks(B).enumerate().map(|(i, c)| (i * B, c)).collect();
+    let workers: Vec<Report> = chunks
+        .par_iter()
+        .map(|(base, chunk)| {
+            let mut w = rep.worker();
+            let progs: Vec<Prog<'_>> = chunk.iter().map(|b| Prog { policy: &policy, rg: Some(b) }).collect();
+            run_progs(&mut w, &progs, *base, false);
             w
         })
         .collect();
@@ -742,6 +863,39 @@ pub fn run(args: &Args) {
             run_policies(&mut rep_cell.borrow_mut(), &pending, false);
         }
     }
+    // recall blocks generated with the same grammar (recall context: no nested recall, checks
+    // diverge with todo()), exercised through `check this.b else recall rg()`
+    {
+        let mut pending: Vec<Vec<Stmt>> = Vec::new();
+        let rg_prefix = format!("{} recall rg() {{", policy_key(&rg_policy()));
+        let rep_cell = std::cell::RefCell::new(&mut rep);
+        let mut n_rg = 0u64;
+        for_each_body(if replay_key.is_some() { 5 } else { max }, Ctx::Recall, &mut |b| {
+            if let Some(k) = &replay_key {
+                let mut key = rg_prefix.clone();
+                print_stmts(&mut key, &b);
+                key.push_str(" }");
+                if &key != k {
+                    return;
+                }
+                seen += 1;
+            }
+            n_rg += 1;
+            if n_rg % 5003 == 1 {
+                let mut t = String::new();
+                print_stmts(&mut t, &b);
+                rep_cell.borrow_mut().sample(json!({"recall_block": t}));
+            }
+            pending.push(b);
+            if pending.len() >= 100 * 256 {
+                run_recall_bodies(&mut rep_cell.borrow_mut(), &pending);
+                pending.clear();
+            }
+        });
+        if !pending.is_empty() {
+            run_recall_bodies(&mut rep_cell.borrow_mut(), &pending);
+        }
+    }
     if replay_key.is_some() {
         if seen == 0 {
             mcx::machinery_error("replay policy is not in the enumerated space");
@@ -789,7 +943,7 @@ pub fn run(args: &Args) {
     rep.set("inputs_per_policy", inputs().len() as u64);
     rep.set(
         "bounds",
-        "all policy bodies of total statement size ≤ max_policy_size (nesting ≤ 2) over 7 simple statements, 3 compound forms, finish blocks over 9 finish statements; 3 recall blocks; 12 inputs",
+        "all policy bodies of total statement size ≤ max_policy_size (nesting ≤ 2) over 7 simple statements, 3 compound forms, finish blocks over 10 finish statements (incl. debug_assert); 3 fixed recall blocks; plus every recall block body of the same size bound over the same grammar (recall context); 12 inputs",
     );
     rep.assume("a failed check without recall cannot be written in this language version (`check … else` needs a diverging expression: recall, todo, return); the clause is checked on every Check exit the interpreter attributes to no recall (count reported, expected 0)");
     rep.assume("the recording MachineIO sees every fact_insert / fact_delete / effect call the VM makes");
@@ -799,6 +953,7 @@ pub fn run(args: &Args) {
     rep.require_nonzero("recall_runs_with_effects");
     rep.require_nonzero("normal_runs_with_effects");
     rep.require_nonzero("misplaced_rejected");
+    rep.require_nonzero("programs_with_generated_recall_block");
     rep.finish()
 }
 
